@@ -1240,7 +1240,9 @@ fn cast_into_memory(
             );
         }
         // ok to error union
-        (_, Ty::ErrorUnion { payload_ty, .. }) if cast_from.can_fit_into(payload_ty) => {
+        // which side the value belongs to is decided by its own type (with all its distincts),
+        // the two sides might only differ in that: `Errno!Fd`, where both are `distinct i32`
+        (_, Ty::ErrorUnion { payload_ty, .. }) if cast_from_original.can_fit_into(payload_ty) => {
             return Some(cast_payload_into_tagged_union(
                 meta_tys,
                 module,
@@ -1256,7 +1258,7 @@ fn cast_into_memory(
             ));
         }
         // error to error union
-        (_, Ty::ErrorUnion { error_ty, .. }) if cast_from.can_fit_into(error_ty) => {
+        (_, Ty::ErrorUnion { error_ty, .. }) if cast_from_original.can_fit_into(error_ty) => {
             return Some(cast_payload_into_tagged_union(
                 meta_tys,
                 module,
